@@ -157,7 +157,7 @@ def theorems_in(props_file):
 def lean_sources():
     out = []
     for root, _, files in os.walk(LEAN_DIR):
-        if ".lake" in root or "/.audit" in root:
+        if ".lake" in root or "/.audit" in root or root.endswith("/proto"):
             continue
         for f in files:
             if f.endswith(".lean"):
@@ -215,12 +215,12 @@ def lean_check_olean(modules, timeout=1800):
 
 
 def lean_run(model, lines, timeout=900):
-    """Run the model driver (lean --run Main.lean <model>) on a list of input
+    """Run the model driver (lean --run run/<model>.lean) on a list of input
     lines; returns the list of output lines (one per input line)."""
     env = dict(os.environ)
     data = "\n".join(lines) + "\n"
     try:
-        p = subprocess.run(["lake", "env", "lean", "--run", "Main.lean", model], cwd=LEAN_DIR, input=data,
+        p = subprocess.run(["lake", "env", "lean", "--run", "run/%s.lean" % model], cwd=LEAN_DIR, input=data,
                            capture_output=True, text=True, timeout=timeout, env=env)
     except subprocess.TimeoutExpired:
         raise MachineryError("model driver timed out (%s)" % model)
